@@ -56,6 +56,8 @@ Proof. exact retrieve_quiet_round. Qed.
 Theorem C14_id_zero_later_refuted : forall rid f acc, walk (serve_sdr cx_repo) rid 0 f acc = WOutOfFuel.
 Proof. exact walk_cx_repo_loops. Qed.
 
-Theorem C14_constants_tie : G.sdrHeaderLength = 5 /\ G.sdrMaxLength = 64 /\ G.RecordTypeFullSensor = 1 /\
-                            G.RecordIDFirst = 0 /\ G.RecordIDLast = 0xffff.
+Theorem C14_constants_tie :
+  present_then N.eqb G.sdr_length_consts [5] = true /\ present_then N.eqb G.sdr_offset_consts [0; 5] = true /\
+  present_then N.eqb G.sdr_max_consts [64] = true /\
+  G.RecordTypeFullSensor = 1 /\ G.RecordIDFirst = 0 /\ G.RecordIDLast = 0xffff.
 Proof. exact tie_sdr_constants. Qed.
